@@ -568,5 +568,15 @@ def r10_security_parameters(chk: Check) -> None:
     chk.decide(None if d is None else (kv.get("name") == f"{p0}['name']" and kv.get("in") == f"{p0}['in']" and kv.get("required") == "True"), "C08.R10", mk, "api key parameter: required, named and located as the definition says", f"built as {kv}", mk.loc())
 
 
+def r11_memo(chk: Check) -> None:
+    from . import shared
+
+    P = chk.project
+    mods = ('specs/openapi/schemas.py', 'specs/openapi/_cache.py', 'specs/openapi/references.py', 'specs/openapi/parameters.py', 'specs/openapi/security.py', 'schemas.py')
+    fns = [f for m in mods if m in P.by_relpath for f in P.module(m).functions.values() if not isinstance(f.node, ast.Lambda)]
+    shared.memo_key_rule(chk, "C08.R11", fns, {("_set_cache_entry", "data"): "a setter: the value to store is handed in by get(), which computed it for this key", ("_get_body_strategy", "operation"): "a parameter belongs to exactly one operation (stated next to the cache)"},
+                         "MEMO-KEY(anchor modules of this property): an operation's effective definition depends on its path item, scope and the document: a cache keyed by less hands out another operation's definition", floor=0)
+
+
 def rules(tier: str) -> list:  # type: ignore[type-arg]
-    return [r1_scope_pairs, r2_merge_order, r3_constructors, r4_no_drop, r5_yaml, r6_iteration_local_scope, r7_scope_not_held_across_yield, r8_lazy_fields_single_source, r9_scan_done_flag, r10_security_parameters, rfwd_forwarding]
+    return [r1_scope_pairs, r2_merge_order, r3_constructors, r4_no_drop, r5_yaml, r6_iteration_local_scope, r7_scope_not_held_across_yield, r8_lazy_fields_single_source, r9_scan_done_flag, r10_security_parameters, rfwd_forwarding, r11_memo]
